@@ -16,7 +16,7 @@ import re
 from typing import Any, Dict, List, Optional, Sequence, Tuple
 
 from ..consteval import CallVal, ConstEval, EnumVal, Sym, enum_members, is_const
-from ..core import (AnalysisError, ClassInfo, FuncInfo, ancestors, ap, call_attr, calls,
+from ..core import (AnalysisError, ClassInfo, FuncInfo, always_exits, ancestors, ap, atoms, call_attr, calls, conditions,
                     enclosing_stmt, facts, find_calls, is_none_test, kw, norm, parent, src, stores, walk)
 from ..tzlint import site_key, tz_sites
 from .common import assigned_value, class_methods_reachable, fmt_count, linform
@@ -29,6 +29,7 @@ XFER = "hippolyzer/lib/base/xfer_manager.py"
 TRANSFER = "hippolyzer/lib/base/transfer_manager.py"
 ANIM = "hippolyzer/lib/base/llanim.py"
 TYPES = "hippolyzer/lib/base/message/msgtypes.py"
+MESH = "hippolyzer/lib/base/mesh.py"
 
 
 # --------------------------------------------------------------------------- class hierarchy helpers
@@ -886,6 +887,45 @@ def _key_checks(ctx, fi: FuncInfo, role: str, flavoured: bool):
                f"stored under `{norm(k)}`: a field with an llsd_name would reach the constructor under its wire name")
 
 
+def _reader_dispatch(ctx, fi: FuncInfo) -> Dict[str, set]:
+    """schema key -> classes whose from_reader the model-level reader calls for it.  Two equivalent
+    dispatch idioms are resolved: an if/elif chain on `key == "const"`, and a lookup of the key in a
+    module-level dict literal {"const": Class} whose result receives the .from_reader call."""
+    repo = ctx.repo
+    disp: Dict[str, set] = {}
+    for n in walk(fi.node):
+        if isinstance(n, ast.If) and isinstance(n.test, ast.Compare) and len(n.test.ops) == 1 \
+                and isinstance(n.test.ops[0], ast.Eq):
+            consts = [x.value for x in (n.test.left, n.test.comparators[0])
+                      if isinstance(x, ast.Constant) and isinstance(x.value, str)]
+            if len(consts) != 1:
+                continue
+            for c in find_calls(ast.Module(body=n.body, type_ignores=[]), "from_reader"):
+                if isinstance(c.func, ast.Attribute) and ap(c.func.value):
+                    disp.setdefault(consts[0], set()).add(ap(c.func.value))
+    # table dispatch: <local> = TABLE.get(key) / TABLE[key]; <local>.from_reader(...)
+    for c in find_calls(fi.node, "from_reader"):
+        if not (isinstance(c.func, ast.Attribute) and isinstance(c.func.value, ast.Name)):
+            continue
+        for v in assigned_value(fi.node, c.func.value.id):
+            table = None
+            if isinstance(v, ast.Call) and call_attr(v) == "get" and isinstance(v.func, ast.Attribute) and v.args:
+                table = v.func.value
+            elif isinstance(v, ast.Subscript):
+                table = v.value
+            if table is None or not isinstance(table, ast.Name):
+                continue
+            lit = repo.module_assign(fi.module, table.id)
+            if not isinstance(lit, ast.Dict):
+                raise AnalysisError(f"C20.R3: {fi.qual} dispatches through `{table.id}`, which is not a module-level "
+                                    f"dict literal (re-read, extend C20.R3)")
+            for k, val in zip(lit.keys, lit.values):
+                if not (isinstance(k, ast.Constant) and isinstance(k.value, str) and ap(val)):
+                    raise AnalysisError(f"C20.R3: dispatch table `{table.id}` has a non-literal row `{norm(k)}: {norm(val)}`")
+                disp.setdefault(k.value, set()).add(ap(val))
+    return disp
+
+
 def r3(ctx):
     repo = ctx.repo
     ctx.rule("C20.R3", "reader and writer key on the same field table (_get_fields_dict with the same flavour), "
@@ -951,13 +991,7 @@ def r3(ctx):
 
     # --- model-level dispatch: legacy text
     mfr = repo.fn("InventoryModel.from_reader", INV)
-    disp = {}
-    for n in walk(mfr.node):
-        if isinstance(n, ast.If) and isinstance(n.test, ast.Compare) and len(n.test.ops) == 1 \
-                and isinstance(n.test.ops[0], ast.Eq) and isinstance(n.test.comparators[0], ast.Constant):
-            for c in find_calls(ast.Module(body=n.body, type_ignores=[]), "from_reader"):
-                if isinstance(c.func, ast.Attribute):
-                    disp.setdefault(n.test.comparators[0].value, set()).add(ap(c.func.value))
+    disp = _reader_dispatch(ctx, mfr)
     for c in node_classes:
         sn = _class_const(repo, c, "SCHEMA_NAME")
         _ob(ctx, "C20.R3", f"InventoryModel.from_reader dispatches {c.name}.SCHEMA_NAME to {c.name}",
@@ -1160,21 +1194,144 @@ def r4(ctx):
         _ob(ctx, "C20.R4", "Xfer length prefix is only read from packet 0",
                any(_is_zero_test(recv.node, e, p, key_expr) for e, p in f_u), ctx.w(recv, uc))
 
-    # sender: one chunk size
-    sev = ConstEval(repo, send.module)
-    takes, drops = [], []
-    for f in send_fns:
-        for n in walk(f.node):
-            if isinstance(n, ast.Subscript) and isinstance(n.slice, ast.Slice) and n.slice.step is None:
-                if n.slice.lower is None and n.slice.upper is not None:
-                    takes.append((f, n, sev.ev(n.slice.upper)))
-                elif n.slice.upper is None and n.slice.lower is not None:
-                    drops.append((f, n, sev.ev(n.slice.lower)))
-    ctx.require(takes and drops, "C20.R4: sender no longer chunks with data[:n] / data[n:] (re-read)")
-    vals = {repr(v) for _, _, v in takes + drops}
-    _ob(ctx, "C20.R4", "Xfer sender takes and advances by one chunk size", len(vals) == 1, ctx.w(*takes[0][:2]),
-           f"chunking uses different sizes {sorted(vals)}: bytes are duplicated or lost between chunks")
+    _sender_chunking(ctx, send, send_fns, pf, pc)
     _expected_plus_one(ctx, "C20.R4", recv, key_expr)
+
+
+def _lin(fn_node, ev: ConstEval, e, depth=0) -> Optional[Dict[Any, int]]:
+    """Linear form {symbol: coeff, 1: const} of an integer expression.  A local is expanded only when its
+    single binding in the function is one plain assignment (no augmented assignment, no loop target)."""
+    if depth > 10:
+        return None
+    if isinstance(e, ast.Constant) and isinstance(e.value, int) and not isinstance(e.value, bool):
+        return {1: e.value}
+    if isinstance(e, ast.BinOp) and isinstance(e.op, (ast.Add, ast.Sub, ast.Mult)):
+        a, b = _lin(fn_node, ev, e.left, depth + 1), _lin(fn_node, ev, e.right, depth + 1)
+        if a is None or b is None:
+            return None
+        if isinstance(e.op, ast.Mult):
+            if set(a) <= {1}:
+                return {k: v * a.get(1, 0) for k, v in b.items()}
+            if set(b) <= {1}:
+                return {k: v * b.get(1, 0) for k, v in a.items()}
+            return None
+        sign = 1 if isinstance(e.op, ast.Add) else -1
+        out = dict(a)
+        for k, v in b.items():
+            out[k] = out.get(k, 0) + sign * v
+        return out
+    if isinstance(e, ast.Name):
+        binds = [st for st in stores(fn_node, into_defs=False) if st.path == e.id]
+        if len(binds) == 1 and binds[0].kind == "assign" and binds[0].value is not None \
+                and not isinstance(binds[0].node, (ast.For, ast.AsyncFor)):
+            return _lin(fn_node, ev, binds[0].value, depth + 1)
+        if binds:
+            return {e.id: 1}
+    v = ev.ev(e)
+    if isinstance(v, int) and not isinstance(v, bool):
+        return {1: v}
+    p = ap(e)
+    return {p: 1} if p else None
+
+
+def _nz(d):
+    return {k: v for k, v in d.items() if v}
+
+
+def _sender_chunking(ctx, send: FuncInfo, send_fns, pf: FuncInfo, pc: ast.Call):
+    """One chunk size (take == advance), and the chunking ranges over the *prefixed* buffer: nothing that
+    controls which chunks are cut may be derived from the payload before the length prefix was prepended."""
+    repo = ctx.repo
+    ev = ConstEval(repo, send.module)
+    P = enclosing_stmt(pc)
+    ctx.require(pf is send and isinstance(P, ast.Assign) and len(P.targets) == 1 and isinstance(P.targets[0], ast.Name)
+                and isinstance(P.value, ast.BinOp) and isinstance(P.value.op, ast.Add)
+                and P.targets[0].id in {n.id for n in ast.walk(P.value) if isinstance(n, ast.Name)},
+                "C20.R4: sender no longer prepends the packed length to the payload variable in Xfer.__init__ (re-read)")
+    V = P.targets[0].id
+    fn = send.node
+    css = _chunk_stores(send)
+    ctx.require(css, "C20.R4: sender no longer stores chunks into self.chunks (re-read)")
+    sizes = []          # (description, value) of every take / advance width
+    control: List[ast.AST] = []   # expressions deciding which chunks are cut
+    for cs in css:
+        control.append(cs.target.slice)
+        for a in ancestors(cs.node):
+            if a is fn:
+                break
+            if isinstance(a, (ast.For, ast.AsyncFor)):
+                control.append(a.iter)
+            elif isinstance(a, ast.While):
+                control.append(a.test)
+        val = _expand(fn, cs.value)
+        if isinstance(val, ast.Subscript) and isinstance(val.slice, ast.Slice) and ap(val.value) == V \
+                and val.slice.step is None and val.slice.upper is not None:
+            lo, hi = val.slice.lower, val.slice.upper
+            control.extend(x for x in (lo, hi) if x is not None)
+            if lo is None:
+                sizes.append(("take", _lin(fn, ev, hi)))
+                drops = [st for st in stores(fn, into_defs=False) if st.kind == "assign" and st.path == V
+                         and st.node is not P and isinstance(st.value, ast.Subscript)
+                         and isinstance(st.value.slice, ast.Slice) and ap(st.value.value) == V]
+                ctx.require(drops and all(d.value.slice.upper is None and d.value.slice.lower is not None for d in drops),
+                            f"C20.R4: sender takes `{norm(val)}` but never advances `{V}` by a `{V}[n:]` slice (re-read)")
+                for d in drops:
+                    sizes.append(("advance", _lin(fn, ev, d.value.slice.lower)))
+                    control.append(d.value.slice.lower)
+            else:
+                l_lo, l_hi = _lin(fn, ev, lo), _lin(fn, ev, hi)
+                ctx.require(l_lo is not None and l_hi is not None, f"C20.R4: chunk window `{norm(val)}` is not linear (re-read)")
+                width = _nz({k: l_hi.get(k, 0) - l_lo.get(k, 0) for k in set(l_lo) | set(l_hi)})
+                sizes.append(("take", width))
+                syms = [k for k in _nz(l_lo) if k != 1]
+                ctx.require(len(syms) == 1, f"C20.R4: chunk offset `{norm(lo)}` does not depend on one loop variable (re-read)")
+                sym, coeff = syms[0], l_lo[syms[0]]
+                augs = [st for st in stores(fn, into_defs=False) if st.path == sym and st.kind == "augassign"]
+                loops = [n for n in walk(fn) if isinstance(n, (ast.For, ast.AsyncFor)) and ap(n.target) == sym]
+                if augs and all(isinstance(st.node.op, ast.Add) for st in augs):
+                    for st in augs:
+                        step = _lin(fn, ev, st.value)
+                        sizes.append(("advance", None if step is None else _nz({k: v * coeff for k, v in step.items()})))
+                elif len(loops) == 1 and isinstance(loops[0].iter, ast.Call) and ap(loops[0].iter.func) == "range" \
+                        and len(loops[0].iter.args) == 1:
+                    sizes.append(("advance", {1: coeff}))
+                else:
+                    raise AnalysisError(f"C20.R4: cannot tell how the chunk offset `{sym}` advances (re-read)")
+        else:
+            tc = [c for a in ancestors(cs.node) if isinstance(a, (ast.For, ast.AsyncFor)) for c in find_calls(a.iter, "to_chunks")]
+            ctx.require(len(tc) == 1 and tc[0].args and ap(tc[0].args[0]) == V,
+                        f"C20.R4: chunk value `{norm(cs.value)}` is not a window of `{V}` (re-read, extend C20.R4)")
+            sizes.append(("take", _lin(fn, ev, tc[0].args[1]) if len(tc[0].args) > 1 else None))
+    shown = sorted({f"{d}={v}" for d, v in sizes})
+    same = all(v is not None for _, v in sizes) and len({repr(sorted(_nz(v).items(), key=repr)) for _, v in sizes}) == 1 \
+        and set(_nz(sizes[0][1])) == {1}
+    _ob(ctx, "C20.R4", "Xfer sender takes and advances by one chunk size", same, ctx.w(send, css[0].node),
+        f"chunking uses different widths {shown}: bytes are duplicated or lost between chunks")
+    # pre-prefix derived names
+    tainted: Dict[str, ast.AST] = {}
+    changed = True
+    while changed:
+        changed = False
+        for st in stores(fn, into_defs=False):
+            if st.kind not in ("assign", "augassign") or st.value is None or st.node is P or "." in st.path \
+                    or st.path in tainted or st.path == V:
+                continue
+            names = {n.id for n in ast.walk(st.value) if isinstance(n, ast.Name)}
+            from_payload = V in names and not _precedes(P, st.node)
+            if from_payload or names & set(tainted):
+                tainted[st.path] = st.node
+                changed = True
+    used = sorted({n.id for e in control for n in ast.walk(e) if isinstance(n, ast.Name) and n.id in tainted})
+    after = all(_precedes(P, cs.node) for cs in css)
+    if not after:
+        why = f"chunks are cut before the length prefix is prepended to `{V}`"
+    elif used:
+        why = (f"{used} is computed from `{V}` before the length prefix is prepended (line "
+               f"{getattr(tainted[used[0]], 'lineno', '?')}) and then decides which chunks are cut: the prefix bytes "
+               f"push the tail of the payload out of the last chunk")
+    else:
+        why = ""
+    _ob(ctx, "C20.R4", "Xfer sender chunks the length-prefixed buffer", after and not used, ctx.w(send, css[0].node), why)
 
 
 def _expected_plus_one(ctx, rule, fi: FuncInfo, key_expr):
@@ -1300,6 +1457,157 @@ def r6(ctx):
                all(isinstance(k, tuple) and len(k) == len(sel_fields) for k in keys), where)
 
 
+# =========================================================================== R7
+
+def _cval(repo, ci: ClassInfo, e):
+    """Integer value of an expression over literals and the class's own constants (cls.X / self.X / Class.X)."""
+    if isinstance(e, ast.Attribute) and isinstance(e.value, ast.Name) and e.value.id in ("cls", "self", ci.name):
+        v = _class_const(repo, ci, e.attr)
+        return v if isinstance(v, int) and not isinstance(v, bool) else None
+    if isinstance(e, ast.BinOp) and isinstance(e.op, (ast.Add, ast.Sub, ast.Mult)):
+        a, b = _cval(repo, ci, e.left), _cval(repo, ci, e.right)
+        if a is None or b is None:
+            return None
+        return a + b if isinstance(e.op, ast.Add) else a - b if isinstance(e.op, ast.Sub) else a * b
+    v = ConstEval(repo, ci.module).ev(e)
+    return v if isinstance(v, int) and not isinstance(v, bool) else None
+
+
+def _len_cmp(repo, ci, e, var: str):
+    """`len(var) <op> const` (either orientation) -> (op class name with len on the left, const) or None."""
+    if not (isinstance(e, ast.Compare) and len(e.ops) == 1):
+        return None
+    l, r = e.left, e.comparators[0]
+    flip = {"Lt": "Gt", "Gt": "Lt", "LtE": "GtE", "GtE": "LtE", "Eq": "Eq", "NotEq": "NotEq"}
+    op = type(e.ops[0]).__name__
+    if op not in flip:
+        return None
+
+    def is_len(x):
+        return isinstance(x, ast.Call) and ap(x.func) == "len" and len(x.args) == 1 and ap(x.args[0]) == var
+    if is_len(l):
+        c = _cval(repo, ci, r)
+        return (op, c) if c is not None else None
+    if is_len(r):
+        c = _cval(repo, ci, l)
+        return (flip[op], c) if c is not None else None
+    return None
+
+
+_CMP = {"Lt": lambda a, b: a < b, "Gt": lambda a, b: a > b, "LtE": lambda a, b: a <= b, "GtE": lambda a, b: a >= b,
+        "Eq": lambda a, b: a == b, "NotEq": lambda a, b: a != b}
+
+
+def r7(ctx):
+    repo = ctx.repo
+    ctx.rule("C20.R7", "mesh vertex weights (terminator-or-limit framing): the counts at which the writer omits the "
+                       "list terminator are exactly the count at which the reader stops without one")
+    ci = repo.cls("VertexWeights", MESH)
+    ser, des = _lookup_method(repo, ci, "serialize"), _lookup_method(repo, ci, "deserialize")
+    ctx.require(ser is not None and des is not None, "VertexWeights.serialize/deserialize vanished")
+    sp, dp = _first_params(ser), _first_params(des)
+    ctx.require(len(sp) >= 3 and len(dp) >= 2, "VertexWeights codec signatures changed (re-read)")
+    vals, wr, rd = sp[1], sp[2], dp[1]
+
+    # ---- writer: trailing (non-element) writes and the list lengths for which they are skipped
+    def in_element_loop(n):
+        for a in ancestors(n):
+            if a is ser.node:
+                return False
+            if isinstance(a, (ast.For, ast.AsyncFor)) and vals in {x.id for x in ast.walk(a.iter) if isinstance(x, ast.Name)}:
+                return True
+            if isinstance(a, ast.comprehension):
+                return True
+        return False
+    w_calls = [c for c in calls(ser.node) if isinstance(c.func, ast.Attribute) and ap(c.func.value) == wr
+               and c.func.attr.startswith("write")]
+    elem = [c for c in w_calls if in_element_loop(c)]
+    trail = [c for c in w_calls if not in_element_loop(c)]
+    ctx.require(elem, "C20.R7: VertexWeights.serialize has no per-influence write loop (re-read)")
+    ctx.require(len(trail) == 1, f"C20.R7: expected one terminator write after the influence loop, found {len(trail)} (re-read)")
+    tw = trail[0]
+    guards, consts = [], []
+    for cd in conditions(tw, ser.node):
+        for e, pol in atoms(cd.test, cd.polarity):
+            lc = _len_cmp(repo, ci, e, vals)
+            if lc is None:
+                raise AnalysisError(f"C20.R7: terminator write depends on `{norm(e)}`, not on the list length (re-read)")
+            guards.append((cd.kind == "early-exit", lc[0], lc[1], pol))
+            consts.append(lc[1])
+    top = (max(consts) + 2) if consts else 2
+    elided = []
+    for n in range(0, top + 1):
+        if not all(_CMP[op](n, c) == pol for early, op, c, pol in guards if early):
+            continue            # the writer rejects this length before writing anything
+        if not all(_CMP[op](n, c) == pol for early, op, c, pol in guards if not early):
+            elided.append(n)
+
+    # ---- reader: the loop that consumes influences and its count bound
+    def reads(n) -> bool:
+        return any(isinstance(c.func, ast.Attribute) and ap(c.func.value) == rd for c in calls(n, into_defs=True))
+    read_names = set()
+    for n in ast.walk(des.node):
+        if isinstance(n, ast.NamedExpr) and reads(n.value):
+            read_names.add(n.target.id)
+    for st in stores(des.node, into_defs=False):
+        if st.kind == "assign" and st.value is not None and reads(st.value):
+            read_names.add(st.path)
+    loops = [n for n in walk(des.node) if isinstance(n, (ast.For, ast.While)) and reads(n)
+             and not any(isinstance(a, (ast.For, ast.While)) and reads(a) for a in ancestors(n) if a is not des.node
+                         and not isinstance(a, (ast.FunctionDef, ast.AsyncFunctionDef)))]
+    ctx.require(len(loops) == 1, f"C20.R7: expected one influence-reading loop in deserialize, found {len(loops)} (re-read)")
+    lp = loops[0]
+
+    def count_bound(e, pol):
+        """count bound expressed by a condition under which the loop continues (pol) / stops (not pol)."""
+        if not (isinstance(e, ast.Compare) and len(e.ops) == 1):
+            return None
+        sides = [e.left, e.comparators[0]]
+        if any(isinstance(x, ast.NamedExpr) or reads(x) or (ap(x) in read_names) for x in sides):
+            return None         # comparison of the value just read (terminator test), not a count
+        cs = [(i, _cval(repo, ci, x)) for i, x in enumerate(sides)]
+        cs = [(i, c) for i, c in cs if c is not None]
+        if len(cs) != 1:
+            return None
+        i, c = cs[0]
+        op = type(e.ops[0]).__name__
+        if i == 0:
+            op = {"Lt": "Gt", "Gt": "Lt", "LtE": "GtE", "GtE": "LtE"}.get(op, op)
+        if not pol:
+            op = {"Lt": "GtE", "GtE": "Lt", "Gt": "LtE", "LtE": "Gt", "Eq": "NotEq", "NotEq": "Eq"}[op]
+        # loop continues while count <op> c
+        return {"Lt": c, "NotEq": c, "LtE": c + 1}.get(op)
+    bounds = []
+    if isinstance(lp, ast.For):
+        it = lp.iter
+        if isinstance(it, ast.Call) and ap(it.func) == "range" and len(it.args) == 1:
+            b = _cval(repo, ci, it.args[0])
+            ctx.require(b is not None, f"C20.R7: reader loop bound `{norm(it.args[0])}` is not a constant (re-read)")
+            bounds.append(b)
+        else:
+            raise AnalysisError(f"C20.R7: reader iterates `{norm(it)}`: unsupported loop shape (re-read)")
+    else:
+        for e, pol in atoms(lp.test, True):
+            b = count_bound(e, pol)
+            if b is not None:
+                bounds.append(b)
+    for n in walk(lp):
+        if isinstance(n, ast.If) and n is not lp and always_exits(n.body) and \
+                any(isinstance(x, (ast.Break, ast.Return)) for x in walk(ast.Module(body=n.body, type_ignores=[]))):
+            for e, pol in atoms(n.test, True):
+                b = count_bound(e, not pol)      # the loop continues while the exit test is false
+                if b is not None:
+                    bounds.append(b)
+    ctx.require(len(set(bounds)) <= 1, f"C20.R7: reader has several count bounds {bounds} (re-read)")
+    want = sorted(set(bounds))
+    _ob(ctx, "C20.R7", "VertexWeights: writer omits the terminator exactly at the reader's count bound",
+        elided == want, ctx.w(des, lp),
+        f"writer omits the terminator for lists of length {elided or 'none'}; reader stops without a terminator "
+        f"after {want or 'no fixed number of'} influences: "
+        + ("a full vertex is followed by the next vertex's bytes, which the reader keeps consuming"
+           if elided and not want else "the two sides frame a full vertex differently"))
+
+
 def run(ctx):
     r1(ctx)
     r2(ctx)
@@ -1307,3 +1615,4 @@ def run(ctx):
     r4(ctx)
     r5(ctx)
     r6(ctx)
+    r7(ctx)
